@@ -188,7 +188,7 @@ def run(ctx):
     variant2name = {}
     order_ok = {}
     try:
-        pps = Walker(PT, max_visits=2, max_paths=400000).paths()
+        pps = Walker(PT, max_visits=2, max_paths=400000, inline=inline.helpers(prog, keep=("get_left_and_right", "check_arithmetic_infix"))).paths()
     except Exception as e:
         pps = []
         ctx.ob("R2", "parse_term", False, ctx.where(PT), "cannot enumerate: %s" % e)
